@@ -83,4 +83,24 @@ theorem history_value_preserved (k h₁ : Nat) (pre mid post : List SEv) (e₂ :
       | none => rw [he2] at hrest2; cases hrest2
       | some _ => rfl
 
+/-- the stored value of a key changes only by a write of the guard of that key -/
+theorem vals_change_only_by_guard_write (k : Nat) (e : SEv) (sp sp1 : Spec) (he : applyEv sp e = some sp1)
+    (hne : sp1.vals k ≠ sp.vals k) : ∃ h v, e = .write h k v ∧ sp.held k = some h := by
+  cases e with
+  | acquire h' k' => simp only [applyEv] at he; split at he <;> cases he; exact absurd rfl hne
+  | wait h' k' => simp only [applyEv] at he; split at he <;> cases he; exact absurd rfl hne
+  | lateWait h' k' => simp only [applyEv] at he; split at he <;> cases he; exact absurd rfl hne
+  | grant h' k' => simp only [applyEv] at he; split at he <;> cases he; exact absurd rfl hne
+  | release h' k' => simp only [applyEv] at he; split at he <;> cases he; exact absurd rfl hne
+  | leave h' k' => simp only [applyEv] at he; split at he <;> cases he; exact absurd rfl hne
+  | write h' k' v =>
+    simp only [applyEv] at he
+    split at he
+    · rename_i hh
+      cases he
+      by_cases e : k = k'
+      · subst e; exact ⟨h', v, rfl, hh⟩
+      · exact absurd (by simp [upd, e]) hne
+    · cases he
+
 end Lockable
